@@ -96,6 +96,18 @@ static void fatal_handler(int sig) {
   _exit(sig == SIGALRM ? 4 : 3);
 }
 
+#include <sys/personality.h>
+/* re-exec once with address-space randomisation off: conservative stack scanning then behaves the
+   same from run to run (a rejection must reproduce before it is reported) */
+static void hc_noaslr(char** argv) {
+  if (getenv("HC_NOASLR_DONE")) return;
+  setenv("HC_NOASLR_DONE", "1", 1);
+  int p = personality(0xffffffff);
+  if (p == -1 || (p & ADDR_NO_RANDOMIZE)) return;
+  if (personality(p | ADDR_NO_RANDOMIZE) == -1) return;
+  execv("/proc/self/exe", argv);
+}
+
 static void hc_install(int per_op_seconds) {
   struct sigaction sa; memset(&sa, 0, sizeof sa);
   sa.sa_handler = fatal_handler; sigemptyset(&sa.sa_mask);
